@@ -263,10 +263,10 @@ def load_corpus(pid):
 
 
 def run_link_property(ctx, pid, gen_cases, oracle, classify, rule, nontrivial, assumptions,
-                      extra_targets=(), model_filter=None, known_class=None, extra_cov=None, hang_is_failure=False, side_findings=None):
+                      extra_targets=(), model_filter=None, known_class=None, extra_cov=None, hang_is_failure=False, side_findings=None, reconf=True, model_oracle=None):
     verdict = C.Verdict(ctx)
     rng = C.Rng(ctx.seed).fork(pid)
-    proof = C.proof_step(ctx, verdict, pid, extra_targets=["Run/LinkRun.vo"] + list(extra_targets))
+    proof = C.proof_step(ctx, verdict, pid, extra_targets=["Run/LinkRun.vo", "Run/ReconfCases.vo"] + list(extra_targets))
     corpus = load_corpus(pid)
     gen, stats = gen_cases(ctx, rng)
     cases = corpus + gen
@@ -286,6 +286,8 @@ def run_link_property(ctx, pid, gen_cases, oracle, classify, rule, nontrivial, a
                     ck["links"] = 1
                     ls = cases[i].get("link_start") or []
                     ck["started"] = ls[k + 1] if k + 1 < len(ls) else 0      # the instant this connection was established
+                if isinstance(m, dict) and r.get("ops") and not m.get("ops"):
+                    m["ops_shared"] = r["ops"]          # the operations' timing, observed once per script
                 cases.append(ck)
                 results.append(m)
             r["more"] = None
@@ -331,7 +333,27 @@ def run_link_property(ctx, pid, gen_cases, oracle, classify, rule, nontrivial, a
     mism = {}
     if model_ok:
         mism = model_verdicts(ctx, cases, results, idx, pid.lower())
-    ctx.log("oracle failures: %d, model mismatches: %d" % (len(failing), len(mism)))
+    # scripts with add / update / remove / reset operations: through the executable reconfiguration model (Model/ReconfRun.v)
+    rstats = {"reconf_traces_validated_against_impl": 0, "reconf_mismatches": 0, "reconf_runs_with_scheduler_choices": 0, "reconf_not_covered_by_model": 0}
+    rmodel_ok = os.path.exists(os.path.join(C.COQ, "Run", "ReconfCases.vo"))
+    if rmodel_ok and reconf:
+        ridx = [i for i, r in enumerate(results) if r is not None and "crash" not in r and not r.get("hang") and cases[i].get("ops")]
+        rv, ncov = reconf_verdicts(ctx, cases, results, ridx, pid.lower())
+        rstats["reconf_traces_validated_against_impl"] = ncov
+        for i, (v, k, mtot) in rv.items():
+            if model_oracle is not None:
+                w = model_oracle(cases[i], results[i], {"verdict": v, "total": mtot})
+                if w:
+                    failing.append((case_cost(cases[i]), i, w))
+            if k > 0:
+                rstats["reconf_runs_with_scheduler_choices"] += 1
+            if v in (2, 3):
+                mism[i] = 20 + v
+                rstats["reconf_mismatches"] += 1
+            elif v != 0:
+                rstats["reconf_not_covered_by_model"] += 1
+    failing.sort()
+    ctx.log("oracle failures: %d, model mismatches: %d (reconfiguration scripts replayed: %d)" % (len(failing), len(mism), rstats["reconf_traces_validated_against_impl"]))
 
     # scenario families of the property that do not go through the virtual-time link harness (real sockets, real server)
     side, side_cov = ([], {})
@@ -370,7 +392,8 @@ def run_link_property(ctx, pid, gen_cases, oracle, classify, rule, nontrivial, a
                         "model and implementation disagree on %d scripts (verdict code %d on the smallest) although every "
                         "implementation trace satisfies the oracle" % (len(mism), mism[i]),
                         {"kind": "correspondence", "case": cases[i], "observed": results[i],
-                         "model_predicts": model_trace(ctx, cases[i], pid.lower() + "_trace")}, has_input=False)
+                         "model_predicts": (reconf_trace(ctx, cases[i], pid.lower() + "_rtrace") if cases[i].get("ops")
+                                            else model_trace(ctx, cases[i], pid.lower() + "_trace"))}, has_input=False)
     rc, nviol = verdict.finish()
     nt = set(json.dumps(c, sort_keys=True) for c in cases if nontrivial(c))
     mid = cases[len(cases) // 2]
@@ -379,11 +402,12 @@ def run_link_property(ctx, pid, gen_cases, oracle, classify, rule, nontrivial, a
         "checker_cmd": "coq_makefile + make Properties/%s.vo (coqc 8.16.1), Print Assumptions per theorem" % pid,
         "theorems": proof["theorems"], "print_assumptions": proof["assumptions"],
         "evaluations": len(cases), "distinct_nontrivial": len(nt), "rule": rule,
-        "traces_validated_against_impl": len(idx) if model_ok else 0,
+        "traces_validated_against_impl": (len(idx) if model_ok else 0) + rstats["reconf_traces_validated_against_impl"],
         "model_mismatches": len(mism), "oracle_failures": len(failing),
         "input_distribution": stats, "corpus_cases": len(corpus),
         "samples": [{"script": mid, "observed": results[len(cases) // 2]}],
     }
+    cov.update(rstats)
     if extra_cov:
         cov.update(extra_cov(cases, results))
     cov.update(side_cov)
@@ -408,3 +432,121 @@ def replay_link(ctx, pid, path, oracle):
         return 1
     print("replay passes on the current tree")
     return 0
+
+
+# ---------------------------------------------------------------- reconfiguration scripts through the executable model (Model/ReconfRun.v)
+def reconf_ops(case):
+    """translates the API operations of a single-connection script into the model's operation requests, tracking the chain;
+    None if the script is outside what the executable model covers (fractional toxicity, random draws, several connections...)"""
+    if (case.get("links") or 1) != 1 or case.get("link_start") or case.get("sink_fail_after") or case.get("reseed") or case.get("srcs"):
+        return None
+    chain = [json.loads(json.dumps(t)) for t in case["chain"]]
+
+    def det(t):
+        a = t["attributes"]
+        if t.get("toxicity", 1) not in (0, 1):
+            return False
+        if t["type"] == "latency" and int(a.get("jitter", 0)) != 0:
+            return False
+        if t["type"] == "slicer" and int(a.get("size_variation", 0)) != 0:
+            return False
+        return t["type"] != "reset_peer"
+
+    if not all(det(t) for t in chain):
+        return None
+    out = []
+    for o in sorted(case.get("ops") or [], key=lambda o: o["at"]):
+        at = o["at"]
+        eff_of = lambda t: C.coq_bool(t.get("toxicity", 1) >= 1)
+        if o["op"] == "add":
+            t = json.loads(json.dumps(o["toxic"]))
+            if not det(t) or ("stream" in t and t["stream"] != case["dir"]) or any(x.get("name") == t.get("name") for x in chain):
+                return None
+            effp = eff_of(chain[-1]) if chain else "true"
+            out.append("(%s, OAdd (%s) %s %s)" % (C.coq_z(at), coq_toxic(t), eff_of(t), effp))
+            chain.append(t)
+        elif o["op"] == "update":
+            ks = [i for i, x in enumerate(chain) if x.get("name") == o["name"]]
+            if not ks:
+                return None
+            k = ks[0]
+            body = json.loads(o["body"])
+            t = chain[k]
+            t["attributes"] = dict(t["attributes"], **(body.get("attributes") or {}))
+            if "toxicity" in body:
+                t["toxicity"] = body["toxicity"]
+            if not det(t):
+                return None
+            out.append("(%s, OUpdate %d (%s) %s)" % (C.coq_z(at), k + 1, coq_toxic(t), eff_of(t)))
+        elif o["op"] == "remove":
+            ks = [i for i, x in enumerate(chain) if x.get("name") == o["name"]]
+            if not ks:
+                return None
+            k = ks[0]
+            effp = eff_of(chain[k - 1]) if k > 0 else "true"
+            out.append("(%s, ORemove %d %s)" % (C.coq_z(at), k + 1, effp))
+            del chain[k]
+        elif o["op"] == "reset":
+            for _ in chain:
+                out.append("(%s, ORemove 1 true)" % C.coq_z(at))
+            chain = []
+        else:
+            return None
+    return out
+
+
+def fuel_reconf(case):
+    f = fuel_for(dict(case, chain=list(case["chain"]) + [o["toxic"] for o in case.get("ops") or [] if o.get("toxic")]))
+    return 4 * f + 400 * (1 + len(case.get("ops") or []))
+
+
+def coq_rcase(case, res, ops):
+    return "mkRCase %s %s %s %s %d %s %s %s" % (
+        coq_chain(case["chain"]), coq_src(case["src"]), C.coq_list(ops), C.coq_z(case["horizon"]), fuel_reconf(case),
+        C.coq_zlist(case.get("sink_delay") or []),
+        C.coq_list(["(%d, %d)" % (w["t"], w["n"]) for w in (res["writes"] or [])]), C.coq_z(res["closed"]))
+
+
+def reconf_verdicts(ctx, cases, results, idx, tag, shard=None):
+    """evaluates the scripts idx (each with operations) through Model/ReconfRun.v inside Coq; returns ({i: (verdict, choice points)}, covered)"""
+    todo = [(i, reconf_ops(cases[i])) for i in idx]
+    todo = [(i, ops) for i, ops in todo if ops is not None and not any(o.get("err") for o in (results[i].get("ops") or []))]
+    if not todo:
+        return {}, 0
+    if shard is None:
+        shard = max(6, -(-len(todo) // 14))
+    import re
+
+    def one(s):
+        part = todo[s:s + shard]
+        body = "From TP Require Import Model.Prelude Extracted Model.Toxics Model.Timed Model.Reconf Model.ReconfRun Run.LinkRun Run.ReconfCases.\n"
+        for j, (i, ops) in enumerate(part):
+            body += "Eval vm_compute in (%d, rverdict (%s)).\n" % (j, coq_rcase(cases[i], results[i], ops))
+        rc, out = C.coq_eval(ctx, "%s_r%d" % (tag, s // shard), body)
+        if rc != 0:
+            k = out.find("Error")
+            raise C.BuildError("model evaluation failed:\n" + (out[max(0, k - 300):k + 800] if k >= 0 else out[-1500:]))
+        res = {}
+        found = re.findall(r"=\s*\((\d+),\s*\((\d+),\s*(\d+),\s*\(?(-?\d+)\)?\)\)", " ".join(out.split()))
+        if len(found) != len(part):
+            raise C.BuildError("model evaluation: expected %d results\n%s" % (len(part), out[-1500:]))
+        for j, v, k, tot in found:
+            res[part[int(j)][0]] = (int(v), int(k), int(tot))
+        return res
+
+    allv = {}
+    with ThreadPoolExecutor(max_workers=14) as ex:
+        for r in ex.map(one, range(0, len(todo), shard)):
+            allv.update(r)
+    return allv, len(todo)
+
+
+def reconf_trace(ctx, case, tag="rtrace"):
+    ops = reconf_ops(case)
+    if ops is None:
+        return None
+    body = "From TP Require Import Model.Prelude Extracted Model.Toxics Model.Timed Model.Reconf Model.ReconfRun Run.LinkRun Run.ReconfCases.\n"
+    rc0 = coq_rcase(case, {"writes": [], "closed": -1}, ops)
+    body += "Eval vm_compute in rmodel_trace false (%s).\nEval vm_compute in rmodel_trace true (%s).\n" % (rc0, rc0)
+    rc, out = C.coq_eval(ctx, tag, body)
+    return " ".join(out.split())[:4000]
